@@ -9,7 +9,7 @@ namespace GL
   unfold L.dropS; split <;> rfl
 
 @[simp] theorem unbumpPos_out (l : L) : (unbumpPos l).out = l.out := by
-  unfold unbumpPos; split <;> rfl
+  unfold unbumpPos; simp only []; split <;> rfl
 
 @[simp] theorem backup_out (l : L) : l.backup.out = l.out := by
   unfold L.backup
